@@ -581,6 +581,10 @@ func (chs *ClientHelloSpec) UnmarshalJSON(jsonB []byte) error {
 		return err
 	}
 
+	if chsju.CipherSuites == nil || chsju.CompressionMethods == nil || chsju.Extensions == nil {
+		return errors.New("tls: cipher_suites, compression_methods and extensions are required in a ClientHelloSpec JSON document")
+	}
+
 	*chs = chsju.ClientHelloSpec()
 	return nil
 }
